@@ -16,7 +16,10 @@ RULE = ("Hypothesis draws a configuration (target tensor d 2..4, mode sizes 1..4
         "b_1..b_K. Then EVERY budget m in 1..M+1 (M = total evaluations; all values when M <= 400, else every cumulative boundary -1/0/+1), "
         "EVERY call k in 1..K at which the objective returns None, EVERY sweep s at which the callback returns True, nswp in 0..3 and EVERY "
         "subset of the stop arguments are executed and compared with the prediction from the reference run (prefix determinism). "
-        "Non-trivial = an interruption strictly inside a half-sweep; distinct by (case digest, fault kind, fault point).")
+        "Sub-check thresholds: targets that are not exactly low-rank (1/(1+sum i), sqrt(1+sum i), low rank + noise 1e-13..1e-4, decaying sums), "
+        "thresholds e / e_vld = {1,2,3.3,5}*10^-14..-2: the documented rule evaluated on the values seen by the callback after every sweep predicts "
+        "the sweep and reason of the end. Non-trivial = an interruption strictly inside a half-sweep, or a threshold crossed at sweep >= 2; "
+        "distinct by (case digest, fault kind, fault point).")
 TOLERANCES = "exact (counters, batch contents, stop reasons); returned tensors must be well-formed and finite; e/e_vld stops need value <= threshold"
 ASSUMPTIONS = ["the objective is deterministic", "m >= 1 (m = 0 means 'no budget' in the code: `int(m) if m else None`)",
                "'conv' is accepted as a documented reason only with a cache and only when m_cache > m_cache_scale*m after a sweep"]
@@ -266,6 +269,101 @@ def prop_config(case, ctx):
     ctx.nontrivial(K >= 2)
 
 
+# ---------------------------------------------------------------------------------------------------------------------
+# the threshold stops as a reference model over the trajectory of reported values: on targets that are NOT exactly of low
+# rank the reported e / e_vld decrease slowly through many decades, so thresholds from 1e-2 down to 1e-14 are crossed at
+# different sweeps.  The documented rule, evaluated on the values the callback saw after every sweep, predicts the sweep
+# at which the run ends and its reason - in both directions (not earlier, not later).
+@st.composite
+def threshold_cases(draw, tier):
+    d = draw(st.integers(2, 4))
+    n = [draw(st.integers(3, 6 if tier == "quick" else 8)) for _ in range(d)]
+    return {"n": n, "target": draw(st.sampled_from(["inv", "sqrt", "noisy_lowrank", "gauss_decay"])), "tseed": draw(gen.seeds),
+            "noise10": draw(st.integers(-13, -4)), "y0seed": draw(st.integers(0, 10 ** 6)), "r0": draw(st.integers(1, 2)),
+            "dr": draw(st.sampled_from([(1, 1), (1, 2), (0, 1), (2, 2)])), "nswp": draw(st.integers(2, 8)),
+            "e10": draw(st.one_of(st.none(), st.integers(-14, -2))), "ev10": draw(st.one_of(st.none(), st.integers(-14, -2))),
+            "mant": draw(st.sampled_from([1.0, 2.0, 5.0, 3.3])), "cache": draw(st.booleans()), "scale10": draw(st.sampled_from([0, 0, 5, -5]))}
+
+
+def threshold_target(case):
+    n = case["n"]
+    d = len(n)
+    rng = np.random.default_rng(case["tseed"])
+    G = np.indices(n).sum(axis=0).astype(float)
+    if case["target"] == "inv":
+        F = 1.0 / (1.0 + G)
+    elif case["target"] == "sqrt":
+        F = np.sqrt(1.0 + G)
+    elif case["target"] == "noisy_lowrank":
+        T = [rng.normal(size=(1 if k == 0 else 2, n[k], 1 if k == d - 1 else 2)) for k in range(d)]
+        F = dense(T)
+        F = F + 10.0 ** case["noise10"] * fro(F) / np.sqrt(F.size) * rng.normal(size=n)
+    else:
+        # a sum of rank-1 terms with geometrically decaying weights
+        F = np.zeros(n)
+        for j in range(8):
+            t = np.ones(())
+            for k in range(d):
+                t = np.multiply.outer(t, rng.normal(size=n[k]))
+            F = F + 10.0 ** (-1.5 * j) * t
+    return F * 10.0 ** case["scale10"]
+
+
+def prop_thresholds(case, ctx):
+    n = case["n"]
+    F = threshold_target(case)
+    e = None if case["e10"] is None else case["mant"] * 10.0 ** case["e10"]
+    e_vld = None if case["ev10"] is None else case["mant"] * 10.0 ** case["ev10"]
+    rng = np.random.default_rng(case["y0seed"])
+    I_vld = y_vld = None
+    if e_vld is not None:
+        I_vld = np.vstack([rng.integers(0, k, size=25) for k in n]).T
+        y_vld = F[tuple(I_vld.T)]
+    Y0 = ctx.lib(teneva.rand, n, case["r0"], seed=case["y0seed"])
+    nswp = case["nswp"]
+    traj = []
+
+    def cb(Y, info, opts):
+        traj.append((float(info["e"]), float(info["e_vld"])))
+
+    info = {}
+    f = Objective(F, max_calls=5000)
+    Y = ctx.lib(teneva.cross, f, Y0, nswp=nswp, e=e, e_vld=e_vld, I_vld=I_vld, y_vld=y_vld, dr_min=case["dr"][0], dr_max=case["dr"][1],
+                info=info, cb=cb, cache={} if case["cache"] else None, m_cache_scale=1e9)
+    ctx.label("target:" + case["target"], "e:" + ("none" if e is None else "1e%d" % case["e10"]), "e_vld:" + ("none" if e_vld is None else "1e%d" % case["ev10"]),
+              "stopped:" + str(info.get("stop")))
+    why = oracle.wellformed(Y, n)
+    ctx.check(why is None, f"cross: result not well-formed: {why}")
+    ctx.check(info["stop"] in ("e", "e_vld", "nswp"), "unexpected stop reason", stop=info["stop"])
+    if info["nswp"] == 0:
+        # ended before the first sweep: only possible through the validation threshold met by the start
+        ctx.check(info["stop"] == "e_vld" and 0 <= info["e_vld"] <= e_vld, "run ended before the first sweep without the validation threshold being met",
+                  stop=info["stop"], e_vld=info["e_vld"], thr=e_vld)
+        return ctx.label("ended_before_first_sweep")
+    ctx.check(len(traj) == info["nswp"], "callback not called once per executed sweep", calls=len(traj), nswp=info["nswp"])
+    pred = None
+    for s, (es, evs) in enumerate(traj, 1):
+        if e_vld is not None and evs >= 0 and evs <= e_vld and not np.isinf(evs):
+            pred = (s, "e_vld")
+        elif e is not None and es >= 0 and es <= e and not np.isinf(es):
+            pred = (s, "e")
+        elif s >= nswp:
+            pred = (s, "nswp")
+        if pred:
+            break
+    crossed = pred is not None and pred[1] != "nswp"
+    ctx.nontrivial(crossed and pred[0] >= 2)
+    ctx.check(pred is not None and (info["nswp"], info["stop"]) == pred,
+              "the run did not end at the sweep / with the reason that the documented thresholds give for the reported values",
+              ended=[info["nswp"], info["stop"]], predicted=list(pred) if pred else None, e=e, e_vld=e_vld, trajectory=traj[:10])
+    ctx.check(info["e"] == traj[-1][0] and info["e_vld"] == traj[-1][1], "info values at return differ from those shown to the last callback")
+    if info["stop"] == "e":
+        ctx.check(0 <= info["e"] <= e, "stop='e' although the reported value is above the threshold", e=info["e"], thr=e)
+    if info["stop"] == "e_vld":
+        ctx.check(0 <= info["e_vld"] <= e_vld, "stop='e_vld' although the reported value is above the threshold", e_vld=info["e_vld"], thr=e_vld)
+
+
 SUBCHECKS = [
     Sub("fault_enumeration", prop_config, strategy=configs, quick=20, thorough=200),
+    Sub("thresholds", prop_thresholds, strategy=threshold_cases, quick=150, thorough=1500),
 ]
